@@ -157,10 +157,10 @@ theorem mul_spec {o o' : Op} {k : Rat} (hw : o.WF) (h : o.mul k = .ok o') :
 
 theorem add_spec {a b o : Op} (ha : a.WF) (hb : b.WF) (h : a.add b = .ok o) :
     o.WF ∧ a.dense.nRow = b.dense.nRow ∧ a.dense.nCol = b.dense.nCol ∧ Mat.Eqv o.dense (a.dense.add b.dense) := by
-  have generic : ∀ (a : Op), a.WF → (∀ s, a ≠ slr s) →
+  have generic : ∀ (a : Op), a.WF →
       ((if a.nRow = b.nRow ∧ a.nCol = b.nCol then Except.ok (gsum a b) else Except.error PyErr.valueError) = Except.ok o) →
       o.WF ∧ a.dense.nRow = b.dense.nRow ∧ a.dense.nCol = b.dense.nCol ∧ Mat.Eqv o.dense (a.dense.add b.dense) := by
-    intro a ha _ h
+    intro a ha h
     split at h
     · rename_i hc
       cases h
@@ -177,13 +177,13 @@ theorem add_spec {a b o : Op} (ha : a.WF) (hb : b.WF) (h : a.add b = .ok o) :
       have := pure_eq_ok h; subst this
       obtain ⟨hv, hr, hc, he⟩ := SLR.add_dense ha hb hu
       exact ⟨hv, hr, hc, he⟩
-    | _ => simp only [add] at h; cases h
-  | pol p => exact generic _ ha (by intro s; simp) (by simpa only [add] using h)
-  | con c => exact generic _ ha (by intro s; simp) (by simpa only [add] using h)
-  | nrm n t => exact generic _ ha (by intro s; simp) (by simpa only [add] using h)
-  | lap l => exact generic _ ha (by intro s; simp) (by simpa only [add] using h)
-  | gsum x y => exact generic _ ha (by intro s; simp) (by simpa only [add] using h)
-  | gscaled x c => exact generic _ ha (by intro s; simp) (by simpa only [add] using h)
+    | _ => exact generic _ ha (by simpa only [add] using h)
+  | pol p => exact generic _ ha (by simpa only [add] using h)
+  | con c => exact generic _ ha (by simpa only [add] using h)
+  | nrm n t => exact generic _ ha (by simpa only [add] using h)
+  | lap l => exact generic _ ha (by simpa only [add] using h)
+  | gsum x y => exact generic _ ha (by simpa only [add] using h)
+  | gscaled x c => exact generic _ ha (by simpa only [add] using h)
 
 theorem sub_spec {a b o : Op} (ha : a.WF) (hb : b.WF) (h : a.sub b = .ok o) :
     o.WF ∧ a.dense.nRow = b.dense.nRow ∧ a.dense.nCol = b.dense.nCol ∧ Mat.Eqv o.dense (a.dense.sub b.dense) := by
@@ -197,15 +197,17 @@ theorem sub_spec {a b o : Op} (ha : a.WF) (hb : b.WF) (h : a.sub b = .ok o) :
   rw [he.get, Mat.get_add hr hc, hne.get, Mat.get_neg, Mat.get_sub hr' hc']
   ring
 
-theorem transpose_spec {o o' : Op} (hw : o.WF) (h : o.transpose = .ok o') :
+theorem transpose_spec {o : Op} : ∀ {o' : Op}, o.WF → o.transpose = .ok o' →
     o'.WF ∧ Mat.Eqv o'.dense o.dense.transpose := by
-  cases o with
+  induction o with
   | slr s =>
+    intro o' hw h
     simp only [transpose] at h
     obtain ⟨t, ht, h⟩ := bind_eq_ok h
     have := pure_eq_ok h; subst this
     exact SLR.transpose_dense hw ht
   | pol p =>
+    intro o' hw h
     simp only [transpose] at h
     obtain ⟨t, ht, h⟩ := bind_eq_ok h
     have := pure_eq_ok h; subst this
@@ -213,24 +215,99 @@ theorem transpose_spec {o o' : Op} (hw : o.WF) (h : o.transpose = .ok o') :
     obtain ⟨rfl, hne, hsq, hnn⟩ := Polynome.init_ok ht
     exact ⟨⟨hne, hsq, hnn⟩, Polynome.powerSum_transpose p.matrix hw.2.1 p.coeffs 0⟩
   | con c =>
+    intro o' hw h
     simp only [transpose] at h
     cases h
     exact ⟨CoNeighbor.transpose_wf hw, CoNeighbor.transpose_dense hw⟩
   | nrm n t =>
+    intro o' hw h
     simp only [transpose] at h
     cases h
     cases t with
     | false => exact ⟨trivial, Mat.Eqv.refl _⟩
     | true => exact ⟨trivial, (Mat.transpose_transpose n.dense).symm⟩
   | lap l =>
+    intro o' hw h
     simp only [transpose] at h
     cases h
     refine ⟨?_, Laplacian.transpose_dense l hw⟩
     show l.lap.transpose.nCol = l.lap.transpose.nRow
     have hw' : l.lap.nCol = l.lap.nRow := hw
     simp [hw']
-  | gsum a b => simp only [transpose] at h; cases h
-  | gscaled a c => simp only [transpose] at h; cases h
+  | gsum a b iha ihb =>
+    intro o' hw h
+    simp only [transpose] at h
+    obtain ⟨a', ha', h⟩ := bind_eq_ok h
+    obtain ⟨b', hb', h⟩ := bind_eq_ok h
+    have := pure_eq_ok h; subst this
+    obtain ⟨hwa, hwb, hr, hc⟩ := hw
+    obtain ⟨hwa', hea⟩ := iha hwa ha'
+    obtain ⟨hwb', heb⟩ := ihb hwb hb'
+    obtain ⟨ar, ac⟩ := dense_shape a hwa
+    obtain ⟨br, bc⟩ := dense_shape b hwb
+    obtain ⟨ar', ac'⟩ := dense_shape a' hwa'
+    obtain ⟨br', bc'⟩ := dense_shape b' hwb'
+    have e1 : a'.nRow = b'.nRow := by
+      rw [← ar', ← br', hea.nRow, heb.nRow]; simp [ac, bc, hc]
+    have e2 : a'.nCol = b'.nCol := by
+      rw [← ac', ← bc', hea.nCol, heb.nCol]; simp [ar, br, hr]
+    refine ⟨⟨hwa', hwb', e1, e2⟩, ?_⟩
+    have hdr : a.dense.nRow = b.dense.nRow := by rw [ar, br, hr]
+    have hdc : a.dense.nCol = b.dense.nCol := by rw [ac, bc, hc]
+    show Mat.Eqv (a'.dense.add b'.dense) (a.dense.add b.dense).transpose
+    refine (Mat.Eqv.add hea heb (by rw [ar', br', e1]) (by rw [ac', bc', e2])).trans ?_
+    exact (Mat.transpose_add a.dense b.dense hdr hdc).symm
+  | gscaled a c iha =>
+    intro o' hw h
+    simp only [transpose] at h
+    obtain ⟨a', ha', h⟩ := bind_eq_ok h
+    have := pure_eq_ok h; subst this
+    obtain ⟨hwa', hea⟩ := iha hw ha'
+    refine ⟨hwa', ?_⟩
+    show Mat.Eqv (a'.dense.smul c) (a.dense.smul c).transpose
+    exact (Mat.Eqv.smul c hea).trans (Mat.transpose_smul c a.dense).symm
+
+/-- `c * operator`: scipy's scaled operator for every class -/
+theorem rmul_spec {o o' : Op} {c : Rat} (hw : o.WF) (h : o.rmul c = .ok o') :
+    o'.WF ∧ Mat.Eqv o'.dense (o.dense.smul c) := by
+  unfold rmul at h; cases h; exact ⟨hw, Mat.Eqv.refl _⟩
+
+/-- `.H`: scipy's combinators re-dispatch the arithmetic on the adjoints of their parts; the result denotes the
+transposed matrix (rational entries: conjugation is the identity) -/
+theorem adjoint_spec {o : Op} : ∀ {o' : Op}, o.WF → o.adjoint = .ok o' →
+    o'.WF ∧ Mat.Eqv o'.dense o.dense.transpose := by
+  induction o with
+  | gsum a b iha ihb =>
+    intro o' hw h
+    simp only [adjoint] at h
+    obtain ⟨a', ha', h⟩ := bind_eq_ok h
+    obtain ⟨b', hb', h⟩ := bind_eq_ok h
+    obtain ⟨hwa, hwb, hr, hc⟩ := hw
+    obtain ⟨hwa', hea⟩ := iha hwa ha'
+    obtain ⟨hwb', heb⟩ := ihb hwb hb'
+    obtain ⟨hw', hr', hc', he⟩ := add_spec hwa' hwb' h
+    obtain ⟨ar, ac⟩ := dense_shape a hwa
+    obtain ⟨br, bc⟩ := dense_shape b hwb
+    have hdr : a.dense.nRow = b.dense.nRow := by rw [ar, br, hr]
+    have hdc : a.dense.nCol = b.dense.nCol := by rw [ac, bc, hc]
+    refine ⟨hw', he.trans ?_⟩
+    show Mat.Eqv (a'.dense.add b'.dense) (a.dense.add b.dense).transpose
+    refine (Mat.Eqv.add hea heb hr' hc').trans ?_
+    exact (Mat.transpose_add a.dense b.dense hdr hdc).symm
+  | gscaled a c iha =>
+    intro o' hw h
+    simp only [adjoint] at h
+    obtain ⟨a', ha', h⟩ := bind_eq_ok h
+    obtain ⟨hwa', hea⟩ := iha hw ha'
+    obtain ⟨hw', he⟩ := mul_spec hwa' h
+    refine ⟨hw', he.trans ?_⟩
+    show Mat.Eqv (a'.dense.smul c) (a.dense.smul c).transpose
+    exact (Mat.Eqv.smul c hea).trans (Mat.transpose_smul c a.dense).symm
+  | slr s => intro o' hw h; exact transpose_spec hw (by simpa only [adjoint] using h)
+  | pol p => intro o' hw h; exact transpose_spec hw (by simpa only [adjoint] using h)
+  | con c => intro o' hw h; exact transpose_spec hw (by simpa only [adjoint] using h)
+  | nrm n t => intro o' hw h; exact transpose_spec hw (by simpa only [adjoint] using h)
+  | lap l => intro o' hw h; exact transpose_spec hw (by simpa only [adjoint] using h)
 
 theorem addCsr_spec {o o' : Op} {a : Mat} (hw : o.WF) (h : o.addCsr a = .ok o') :
     o'.WF ∧ o.dense.nRow = a.nRow ∧ o.dense.nCol = a.nCol ∧ Mat.Eqv o'.dense (o.dense.add a) := by
@@ -286,12 +363,43 @@ theorem rightDot_spec {o o' : Op} {m : Mat} (hw : o.WF) (h : o.rightDot m = .ok 
     exact ⟨hv, he⟩
   | _ => simp only [rightDot] at h; cases h
 
-theorem astype_spec {o o' : Op} (hw : o.WF) (h : o.astype = .ok o') : o'.WF ∧ Mat.Eqv o'.dense o.dense := by
+theorem Mat.cast_nRow (dt : CastTo) (a : Mat) : (a.cast dt).nRow = a.nRow := rfl
+theorem Mat.cast_nCol (dt : CastTo) (a : Mat) : (a.cast dt).nCol = a.nCol := rfl
+
+theorem astype_wf {o o' : Op} {dt : CastTo} (hw : o.WF) (h : o.astype dt = .ok o') : o'.WF := by
   cases o with
-  | slr s => simp only [astype] at h; cases h; exact ⟨hw, Mat.Eqv.refl _⟩
-  | lap l => simp only [astype] at h; cases h; exact ⟨hw, Mat.Eqv.refl _⟩
-  | con c => simp only [astype] at h; cases h; exact ⟨hw, Mat.Eqv.refl _⟩
+  | slr s =>
+    simp only [astype] at h; cases h
+    intro t ht
+    obtain ⟨u, hu, rfl⟩ := List.mem_map.mp ht
+    have := hw u hu
+    exact ⟨by simpa [vcast, SLR.astype, SLR.nRow, Mat.cast] using this.1,
+      by simpa [vcast, SLR.astype, SLR.nCol, Mat.cast] using this.2⟩
+  | lap l => simp only [astype] at h; cases h; exact hw
+  | con c => simp only [astype] at h; cases h; exact hw
   | _ => simp only [astype] at h; cases h
+
+/-- the floating casts keep the operator; the integer cast keeps it when it keeps its stored parts -/
+theorem astype_float {o o' : Op} {dt : CastTo} (hdt : dt ≠ .int) (h : o.astype dt = .ok o') : o' = o := by
+  have hc : ∀ x, rcast dt x = x := by intro x; cases dt <;> simp_all [rcast]
+  have hf : rcast dt = id := funext hc
+  have hv : ∀ v : Vec, vcast dt v = v := by intro v; unfold vcast; rw [hf]; simp
+  have hm : ∀ a : Mat, a.cast dt = a := by
+    intro a; unfold Mat.cast; rw [hf]; simp
+  cases o with
+  | slr s => simp only [astype] at h; cases h; simp [SLR.astype, hm, hv]
+  | lap l => simp only [astype] at h; cases h; simp [Laplacian.astype, hm]
+  | con c => simp only [astype] at h; cases h; simp [CoNeighbor.astype, hm]
+  | _ => simp only [astype] at h; cases h
+
+theorem astype_spec {o o' : Op} {dt : CastTo} (hw : o.WF) (h : o.astype dt = .ok o')
+    (hexact : dt = .int → o.astype .int = .ok o) : o'.WF ∧ Mat.Eqv o'.dense o.dense := by
+  refine ⟨astype_wf hw h, ?_⟩
+  by_cases hdt : dt = .int
+  · subst hdt
+    rw [hexact rfl] at h
+    cases h; exact Mat.Eqv.refl _
+  · rw [astype_float hdt h]; exact Mat.Eqv.refl _
 
 theorem d2u_spec {o o' : Op} (hw : o.WF) (h : o.d2u = .ok o') :
     o'.WF ∧ o.dense.nRow = o.dense.nCol ∧ Mat.Eqv o'.dense (o.dense.add o.dense.transpose) := by
@@ -398,123 +506,134 @@ theorem powerSum_eq_polySum (a : Mat) (cs : List Rat) (k : Nat) : Polynome.power
 
 namespace OpExpr
 
-theorem denote_spec : ∀ (e : OpExpr) (o : Op), e.eval = .ok o → o.WF ∧ Mat.Eqv o.dense e.denote
-  | slr s ts, o, h => by
+theorem denote_spec : ∀ (e : OpExpr) (o : Op), e.IntCastsExact → e.eval = .ok o → o.WF ∧ Mat.Eqv o.dense e.denote
+  | slr s ts, o, hc, h => by
     simp only [eval] at h
     obtain ⟨t, ht, h⟩ := bind_eq_ok h
     have := pure_eq_ok h; subst this
     exact SLR.init_dense ht
-  | regularizer a reg, o, h => by
+  | regularizer a reg, o, hc, h => by
     simp only [eval] at h
     obtain ⟨t, ht, h⟩ := bind_eq_ok h
     have := pure_eq_ok h; subst this
     exact regularizer_dense ht
-  | normalizer a reg, o, h => by
+  | normalizer a reg, o, hc, h => by
     simp only [eval] at h
-    cases h
-    exact ⟨trivial, Normalizer.init_dense a reg⟩
-  | laplacian a reg nz sq, o, h => by
+    split at h
+    · cases h
+    · cases h
+      exact ⟨trivial, Normalizer.init_dense a reg⟩
+  | laplacian a reg nz sq, o, hc, h => by
     simp only [eval] at h
-    obtain ⟨l, hl, h⟩ := bind_eq_ok h
-    have := pure_eq_ok h; subst this
-    exact ⟨(Laplacian.init_square hl).1, Laplacian.init_dense hl⟩
-  | coneighbor a nz, o, h => by
+    split at h
+    · cases h
+    · obtain ⟨l, hl, h⟩ := bind_eq_ok h
+      have := pure_eq_ok h; subst this
+      exact ⟨(Laplacian.init_square hl).1, Laplacian.init_dense hl⟩
+  | coneighbor a nz, o, hc, h => by
     simp only [eval] at h
     obtain ⟨c, hc, h⟩ := bind_eq_ok h
     have := pure_eq_ok h; subst this
     exact ⟨CoNeighbor.init_wf hc, CoNeighbor.init_dense hc⟩
-  | polynome a cs, o, h => by
+  | polynome a cs, o, hc, h => by
     simp only [eval] at h
     obtain ⟨p, hp, h⟩ := bind_eq_ok h
     have := pure_eq_ok h; subst this
     obtain ⟨rfl, hne, hsq, hnn⟩ := Polynome.init_ok hp
     exact ⟨⟨hne, hsq, hnn⟩, Mat.Eqv.of_eq (powerSum_eq_polySum a cs 0)⟩
-  | neg e, o, h => by
+  | neg e, o, hc, h => by
     simp only [eval] at h
     obtain ⟨x, hx, h⟩ := bind_eq_ok h
-    obtain ⟨hw, he⟩ := denote_spec e x hx
+    obtain ⟨hw, he⟩ := denote_spec e x hc hx
     obtain ⟨hw', he'⟩ := Op.neg_spec hw h
     exact ⟨hw', he'.trans (Mat.Eqv.neg he)⟩
-  | add e f, o, h => by
+  | add e f, o, hc, h => by
     simp only [eval] at h
     obtain ⟨x, hx, h⟩ := bind_eq_ok h
     obtain ⟨y, hy, h⟩ := bind_eq_ok h
-    obtain ⟨hwx, hex⟩ := denote_spec e x hx
-    obtain ⟨hwy, hey⟩ := denote_spec f y hy
+    obtain ⟨hwx, hex⟩ := denote_spec e x hc.1 hx
+    obtain ⟨hwy, hey⟩ := denote_spec f y hc.2 hy
     obtain ⟨hw', hrr, hcc, he'⟩ := Op.add_spec hwx hwy h
     exact ⟨hw', he'.trans (Mat.Eqv.add hex hey hrr hcc)⟩
-  | sub e f, o, h => by
+  | sub e f, o, hc, h => by
     simp only [eval] at h
     obtain ⟨x, hx, h⟩ := bind_eq_ok h
     obtain ⟨y, hy, h⟩ := bind_eq_ok h
-    obtain ⟨hwx, hex⟩ := denote_spec e x hx
-    obtain ⟨hwy, hey⟩ := denote_spec f y hy
+    obtain ⟨hwx, hex⟩ := denote_spec e x hc.1 hx
+    obtain ⟨hwy, hey⟩ := denote_spec f y hc.2 hy
     obtain ⟨hw', hrr, hcc, he'⟩ := Op.sub_spec hwx hwy h
     exact ⟨hw', he'.trans (Mat.Eqv.sub hex hey hrr hcc)⟩
-  | addCsr e a, o, h => by
+  | addCsr e a, o, hc, h => by
     simp only [eval] at h
     obtain ⟨x, hx, h⟩ := bind_eq_ok h
-    obtain ⟨hw, he⟩ := denote_spec e x hx
+    obtain ⟨hw, he⟩ := denote_spec e x hc hx
     obtain ⟨hw', hrr, hcc, he'⟩ := Op.addCsr_spec hw h
     exact ⟨hw', he'.trans (Mat.Eqv.add he (Mat.Eqv.refl a) hrr hcc)⟩
-  | subCsr e a, o, h => by
+  | subCsr e a, o, hc, h => by
     simp only [eval] at h
     obtain ⟨x, hx, h⟩ := bind_eq_ok h
-    obtain ⟨hw, he⟩ := denote_spec e x hx
+    obtain ⟨hw, he⟩ := denote_spec e x hc hx
     obtain ⟨hw', hrr, hcc, he'⟩ := Op.subCsr_spec hw h
     exact ⟨hw', he'.trans (Mat.Eqv.sub he (Mat.Eqv.refl a) hrr hcc)⟩
-  | mul e c, o, h => by
+  | mul e c, o, hc, h => by
     simp only [eval] at h
     obtain ⟨x, hx, h⟩ := bind_eq_ok h
-    obtain ⟨hw, he⟩ := denote_spec e x hx
+    obtain ⟨hw, he⟩ := denote_spec e x hc hx
     obtain ⟨hw', he'⟩ := Op.mul_spec hw h
     exact ⟨hw', he'.trans (Mat.Eqv.smul c he)⟩
-  | transpose e, o, h => by
+  | transpose e, o, hc, h => by
     simp only [eval] at h
     obtain ⟨x, hx, h⟩ := bind_eq_ok h
-    obtain ⟨hw, he⟩ := denote_spec e x hx
+    obtain ⟨hw, he⟩ := denote_spec e x hc hx
     obtain ⟨hw', he'⟩ := Op.transpose_spec hw h
     exact ⟨hw', he'.trans (Mat.Eqv.transpose he)⟩
-  | leftDot m e, o, h => by
+  | leftDot m e, o, hc, h => by
     simp only [eval] at h
     obtain ⟨x, hx, h⟩ := bind_eq_ok h
-    obtain ⟨hw, he⟩ := denote_spec e x hx
+    obtain ⟨hw, he⟩ := denote_spec e x hc hx
     obtain ⟨hw', he'⟩ := Op.leftDot_spec hw h
     exact ⟨hw', he'.trans (Mat.Eqv.mul (Mat.Eqv.refl m) he)⟩
-  | rightDot e m, o, h => by
+  | rightDot e m, o, hc, h => by
     simp only [eval] at h
     obtain ⟨x, hx, h⟩ := bind_eq_ok h
-    obtain ⟨hw, he⟩ := denote_spec e x hx
+    obtain ⟨hw, he⟩ := denote_spec e x hc hx
     obtain ⟨hw', he'⟩ := Op.rightDot_spec hw h
     exact ⟨hw', he'.trans (Mat.Eqv.mul he (Mat.Eqv.refl m))⟩
-  | astype e, o, h => by
+  | astype e dt, o, hc, h => by
     simp only [eval] at h
     obtain ⟨x, hx, h⟩ := bind_eq_ok h
-    obtain ⟨hw, he⟩ := denote_spec e x hx
-    obtain ⟨hw', he'⟩ := Op.astype_spec hw h
+    have hce : e.IntCastsExact := by cases dt <;> first | exact hc | exact hc.1
+    obtain ⟨hw, he⟩ := denote_spec e x hce hx
+    obtain ⟨hw', he'⟩ := Op.astype_spec hw h (fun hdt => by subst hdt; exact hc.2 x hx)
     exact ⟨hw', he'.trans he⟩
-  | d2u e, o, h => by
+  | rmul c e, o, hc, h => by
     simp only [eval] at h
     obtain ⟨x, hx, h⟩ := bind_eq_ok h
-    obtain ⟨hw, he⟩ := denote_spec e x hx
+    obtain ⟨hw, he⟩ := denote_spec e x hc hx
+    obtain ⟨hw', he'⟩ := Op.rmul_spec hw h
+    exact ⟨hw', he'.trans (Mat.Eqv.smul c he)⟩
+  | d2u e, o, hc, h => by
+    simp only [eval] at h
+    obtain ⟨x, hx, h⟩ := bind_eq_ok h
+    obtain ⟨hw, he⟩ := denote_spec e x hc hx
     obtain ⟨hw', hsq, he'⟩ := Op.d2u_spec hw h
     exact ⟨hw', he'.trans (Mat.Eqv.add he (Mat.Eqv.transpose he) (by simpa using hsq) (by simpa using hsq.symm))⟩
-  | b2d e, o, h => by
+  | b2d e, o, hc, h => by
     simp only [eval] at h
     obtain ⟨x, hx, h⟩ := bind_eq_ok h
-    obtain ⟨hw, he⟩ := denote_spec e x hx
+    obtain ⟨hw, he⟩ := denote_spec e x hc hx
     obtain ⟨hw', he'⟩ := Op.b2d_spec hw h
     exact ⟨hw', he'.trans (Mat.Eqv.block he (Mat.Eqv.zero he.nCol he.nRow))⟩
-  | b2u e, o, h => by
+  | b2u e, o, hc, h => by
     simp only [eval] at h
     obtain ⟨x, hx, h⟩ := bind_eq_ok h
-    obtain ⟨hw, he⟩ := denote_spec e x hx
+    obtain ⟨hw, he⟩ := denote_spec e x hc hx
     obtain ⟨hw', he'⟩ := Op.b2u_spec hw h
     exact ⟨hw', he'.trans (Mat.Eqv.block he (Mat.Eqv.transpose he))⟩
-  | normalize e, o, h => by
+  | normalize e, o, hc, h => by
     simp only [eval] at h
     obtain ⟨x, hx, h⟩ := bind_eq_ok h
-    obtain ⟨hw, he⟩ := denote_spec e x hx
+    obtain ⟨hw, he⟩ := denote_spec e x hc hx
     obtain ⟨hw', he'⟩ := Op.normalize_spec hw h
     exact ⟨hw', he'.trans (Mat.Eqv.rowNormalized he)⟩
 
@@ -527,27 +646,30 @@ theorem Op.dotMat_eqv {o : Op} (hw : o.WF) {x y : Mat} (hy : o.dotMat x = .ok y)
   obtain ⟨hr, hc⟩ := Op.dense_shape o hw
   unfold Op.dotMat at hy
   split at hy
-  · rename_i hx
-    cases hy
-    refine ⟨hx, by simp [Mat.ofCols, ← hr], by simp [Mat.ofCols], fun i k => ?_⟩
-    unfold Mat.ofCols
-    rw [Mat.get_ofFn, Mat.get_mul]
-    by_cases hik : i < o.nRow ∧ k < x.nCol
-    · simp only [hik, and_self, if_true]
-      rw [tab_getD, if_pos hik.2]
-      rw [Op.matvec_eq_dense o _ hw (by simp [Mat.col, hx]), Mat.vget_mulVec]
-      apply sumTo_congr; intro j hj
-      unfold Mat.col
-      rw [vget_tab]
-      have : j < x.nRow := by rw [hx, ← hc]; exact hj
-      simp [this]
-    · simp only [hik, if_false]
-      symm; apply sumTo_eq_zero; intro j _
-      by_cases hi : i < o.nRow
-      · have hk : x.nCol ≤ k := Nat.le_of_not_lt (fun c => hik ⟨hi, c⟩)
-        rw [Mat.get_of_col_ge j hk]; ring
-      · rw [Mat.get_of_row_ge j (by rw [hr]; exact Nat.le_of_not_lt hi)]; ring
   · cases hy
+  · rename_i hx
+    have hx : x.nRow = o.nCol := not_not.mp hx
+    split at hy
+    · cases hy
+    · cases hy
+      refine ⟨hx, by simp [Mat.ofCols, ← hr], by simp [Mat.ofCols], fun i k => ?_⟩
+      unfold Mat.ofCols
+      rw [Mat.get_ofFn, Mat.get_mul]
+      by_cases hik : i < o.nRow ∧ k < x.nCol
+      · simp only [hik, and_self, if_true]
+        rw [tab_getD, if_pos hik.2]
+        rw [Op.matvec_eq_dense o _ hw (by simp [Mat.col, hx]), Mat.vget_mulVec]
+        apply sumTo_congr; intro j hj
+        unfold Mat.col
+        rw [vget_tab]
+        have : j < x.nRow := by rw [hx, ← hc]; exact hj
+        simp [this]
+      · simp only [hik, if_false]
+        symm; apply sumTo_eq_zero; intro j _
+        by_cases hi : i < o.nRow
+        · have hk : x.nCol ≤ k := Nat.le_of_not_lt (fun c => hik ⟨hi, c⟩)
+          rw [Mat.get_of_col_ge j hk]; ring
+        · rw [Mat.get_of_row_ge j (by rw [hr]; exact Nat.le_of_not_lt hi)]; ring
 
 /-- the dense matrix of an operand of `safe_sparse_dot` -/
 def Operand.dense : Operand → Mat
